@@ -13,10 +13,55 @@ from .c09 import C09
 HDR_FROM_DATA = {'recast', 'recast:variablefield', 'pivot', 'transpose', 'unpackdict:sample', 'unpackdict:default', 'facet', 'fromcolumns',
                  'unflatten', 'flatten', 'cat:header'}
 # data rows expected when EVERY input is header-only (default 0)
-EXPECT_ROWS = {'pushheader': 1, 'aggregate:nokey:simple': 1, 'transpose': 2, 'parsecounts': 2,
+EXPECT_ROWS = {'pushheader': 1, 'fromtext:mem': 1, 'aggregate:nokey:simple': 1, 'transpose': 2, 'parsecounts': 2,
                'addcolumn': 3}     # addcolumn is documented to pad: the new column's values become rows
 # skip(table, 1) drops the only row: by definition nothing is left, not even a header
 NO_HEADER_OK = {'skip'}
+
+
+def _stats0(etl, t):
+    s = etl.stats(t, 'v')
+    return (s.count, s.errors, s.sum, s.min, s.max)
+
+
+# accessor -> (call on a header-only table ['k','a','v'], value for zero rows)
+ACCESSORS = {
+    'nrows': (lambda etl, t: etl.nrows(t), 0),
+    'header': (lambda etl, t: tuple(etl.header(t)), ('k', 'a', 'v')),
+    'fieldnames': (lambda etl, t: tuple(etl.fieldnames(t)), ('k', 'a', 'v')),
+    'data': (lambda etl, t: list(etl.data(t)), []),
+    'values': (lambda etl, t: list(etl.values(t, 'v')), []),
+    'values:multi': (lambda etl, t: list(etl.values(t, 'k', 'v')), []),
+    'dicts': (lambda etl, t: list(etl.dicts(t)), []),
+    'records': (lambda etl, t: list(etl.records(t)), []),
+    'namedtuples': (lambda etl, t: list(etl.namedtuples(t)), []),
+    'columns': (lambda etl, t: dict(etl.columns(t)), {'k': [], 'a': [], 'v': []}),
+    'facetcolumns': (lambda etl, t: dict(etl.facetcolumns(t, 'k')), {}),
+    'lookup': (lambda etl, t: dict(etl.lookup(t, 'k')), {}),
+    'lookupone': (lambda etl, t: dict(etl.lookupone(t, 'k')), {}),
+    'dictlookup': (lambda etl, t: dict(etl.dictlookup(t, 'k')), {}),
+    'dictlookupone': (lambda etl, t: dict(etl.dictlookupone(t, 'k')), {}),
+    'recordlookup': (lambda etl, t: dict(etl.recordlookup(t, 'k')), {}),
+    'recordlookupone': (lambda etl, t: dict(etl.recordlookupone(t, 'k')), {}),
+    'limits': (lambda etl, t: etl.limits(t, 'v'), (None, None)),
+    'stats': (_stats0, (0, 0, 0, None, None)),
+    'typeset': (lambda etl, t: etl.typeset(t, 'v'), set()),
+    'valuecount': (lambda etl, t: etl.valuecount(t, 'k', 1), (0, 0.0)),
+    'valuecounter': (lambda etl, t: dict(etl.valuecounter(t, 'v')), {}),
+    'typecounter': (lambda etl, t: dict(etl.typecounter(t, 'v')), {}),
+    'parsecounter': (lambda etl, t: tuple(sum(c.values()) for c in etl.parsecounter(t, 'v')), (0, 0)),
+    'stringpatterncounter': (lambda etl, t: dict(etl.stringpatterncounter(t, 'a')), {}),
+    'rowlengths': (lambda etl, t: [tuple(r) for r in etl.rowlengths(t)], [('length', 'count')]),
+    'isunique': (lambda etl, t: etl.isunique(t, 'k'), True),
+    'issorted': (lambda etl, t: etl.issorted(t, 'k'), True),
+    'diffheaders': (lambda etl, t: etl.diffheaders(t, [['k', 'x']]), ({'x'}, {'a', 'v'})),
+    'diffvalues': (lambda etl, t: etl.diffvalues(t, [['k']], 'k'), (set(), set())),
+    'listoflists': (lambda etl, t: etl.listoflists(t), [['k', 'a', 'v']]),
+    'tupleoftuples': (lambda etl, t: etl.tupleoftuples(t), (('k', 'a', 'v'),)),
+    'look': (lambda etl, t: 'k' in str(etl.look(t)) and 'a' in str(etl.look(t)), True),
+    'lookall': (lambda etl, t: 'v' in str(etl.lookall(t)), True),
+    'see': (lambda etl, t: str(etl.see(t)).startswith('k'), True),
+}
 
 
 class C20(Prop):
@@ -49,6 +94,9 @@ class C20(Prop):
             for pos in subsets:
                 for _ in range(reps):
                     yield Case('const_true', ('c20', e['name'], tuple(pos), rng.randrange(1 << 30)))
+        # accessors and reporting functions on a header-only table: the value their definition gives for zero rows
+        for nm in sorted(ACCESSORS):
+            yield Case('const_true', ('acc', nm, (0,), 0))
         # modelled operators, exact comparison on header-only inputs
         for hdr in (('a',), ('a', 'b', 'c')):
             rows = tuple(tuple(rng.choice([None, 1, 'x']) for _ in hdr) for _ in range(3))
@@ -108,6 +156,19 @@ class C20(Prop):
         return True, ''
 
     def impl(self, case):
+        if case.op == 'const_true' and case.arg[0] == 'acc':
+            try:
+                import petl as etl
+                from collections import Counter
+                f, want = ACCESSORS[case.arg[1]]
+                got = f(etl, [['k', 'a', 'v']])
+                ok = (got == want)
+                if not ok:
+                    case.meta['why'] = '%s on a header-only table gives %r, expected %r' % (case.arg[1], got, want)
+                return codec.t_bool(ok)
+            except Exception as e:   # noqa
+                case.meta['why'] = '%s on a header-only table raised %s: %s' % (case.arg[1], type(e).__name__, e)
+                return codec.t_bool(False)
         if case.op == 'const_true':
             _, name, pos, seed = case.arg
             ok, why = self._c20(name, pos, seed)
@@ -161,6 +222,8 @@ class C20(Prop):
         if case.op == 'const_true':
             try:
                 names = {e['name']: e for e in catalogue.entries()}
+                if case.arg[0] == 'acc':
+                    return case.arg[1] in ACCESSORS
                 _, name, pos, seed = case.arg
                 return name in names and len(pos) >= 1 and all(0 <= p < names[name]['nsrc'] for p in pos) \
                     and len(set(pos)) == len(pos)
